@@ -145,6 +145,7 @@ def gen(rng, knobs):
             script[at:at] = [["send", json.dumps(["EVENT", e])] for e in seq]
         clients.append({"script": script})
     return {"backend": backend, "clients": clients,
+            "storage_opts": histgen.pool_knob(rng, backend),
             "sched": {**histgen.stall_knob(rng), "client": rng.choice([0.5, 1.0, 3.0]), "sql": rng.choice([0.3, 1.0, 3.0]),
                       "exec": rng.choice([0.2, 1.0, 3.0]), "writer": rng.choice([0.2, 1.0, 3.0]),
                       "ready": rng.choice([1.0, 4.0, 8.0])}}
@@ -169,7 +170,7 @@ def parse(text):
 
 def run(case, sim):
     backend = case["backend"]
-    w = relay.RelayWorld(sim, backend, case["clients"]).run()
+    w = relay.RelayWorld(sim, backend, case["clients"], storage_opts=case.get("storage_opts")).run()
     viol = []
     probes = collections.Counter()
     final = w.final["dump"]
@@ -312,8 +313,16 @@ def run(case, sim):
         def stored_throughout(t0, t1):
             sts = w.env.states_between(t0, t1)
             return bool(sts) and all(eid in d for d in sts)
-        allowed = max(1, sum(1 for x in lst if not stored_throughout(x["t0"], x["t1"])))
-        if same and not eph and n_push > allowed:
+        # an id is pushed once per time it really entered the store (absent -> present in the history of
+        # durable states), however many submissions raced for that; at least once for an accepted one
+        inserted, prev = 0, False
+        for _seq, d in states:
+            now_in = eid in d
+            if now_in and not prev:
+                inserted += 1
+            prev = now_in
+        allowed = max(1, inserted)
+        if not eph and n_push > allowed:
             viol.append({"cls": "rebroadcast", "sig": "rebroadcast|%s" % backend,
                          "detail": {"event": oracles.brief(ev0) if model.wellformed(ev0) else eid[:8],
                                     "submissions": len(lst), "pushes": n_push,
